@@ -45,8 +45,17 @@ type c15Entry struct {
 func (c15) Generate(r *core.Rand, tier string, idx uint64) *core.Case {
 	c := &core.Case{Property: "C15", Engine: "git", Config: map[string]int{}, Flags: map[string]bool{}, Strs: map[string]string{}}
 	c.Config["shared"] = r.Range(1, 3)
-	c.Config["remoteOnly"] = r.Range(0, 2)
+	c.Config["remoteOnly"] = r.Range(0, 4)
 	c.Config["localOnly"] = r.Range(1, 4)
+	if r.Chance(0.3) {
+		c.Config["localOnly"] = 0 // clone B is purely behind
+	}
+	if r.Chance(0.5) {
+		c.Flags["remoteAnnotated"] = true
+		c.Config["annPattern"] = r.Intn(5)
+		c.Config["remoteOnly"] = r.Range(0, 2)
+	}
+	c.Flags["syncOnly"] = r.Chance(0.3)  // Sync without a prior reconcile
 	c.Flags["overlap"] = r.Chance(0.25)  // B also changes a ref A changed
 	c.Flags["overwrite"] = r.Chance(0.3) // Sync's overwrite flag
 	c.Flags["localRefDiverged"] = r.Chance(0.2)
@@ -159,9 +168,41 @@ func (d c15) Execute(c *core.Case) (res *core.Result) {
 	// A's suffix reaches the forge first
 	remoteLog := append([]c15Log{}, shared...)
 	remoteRefs := map[string]bool{}
+	if c.Flags["remoteAnnotated"] {
+		// clone A records a change and then annotates it: nothing, a revocation, a note, or both in either order
+		ref := refsAll[r.Intn(2)]
+		t := newCommit(a, ref, "remote-annotated")
+		remoteRefs[ref] = true
+		appendEntry(a, &remoteLog, c15Log{kind: "reference", ref: ref, target: t})
+		x := len(remoteLog) - 1
+		switch c.Config["annPattern"] {
+		case 1:
+			appendEntry(a, &remoteLog, c15Log{kind: "annotation", targets: []int{x}, skip: true})
+		case 2:
+			appendEntry(a, &remoteLog, c15Log{kind: "annotation", targets: []int{x}, skip: false})
+		case 3:
+			appendEntry(a, &remoteLog, c15Log{kind: "annotation", targets: []int{x}, skip: false})
+			appendEntry(a, &remoteLog, c15Log{kind: "annotation", targets: []int{x}, skip: true})
+		case 4:
+			appendEntry(a, &remoteLog, c15Log{kind: "annotation", targets: []int{x}, skip: true})
+			appendEntry(a, &remoteLog, c15Log{kind: "annotation", targets: []int{x}, skip: false})
+		}
+	}
 	for i := 0; i < c.Config["remoteOnly"]; i++ {
-		if r.Chance(0.2) && len(remoteLog) > 0 {
-			appendEntry(a, &remoteLog, c15Log{kind: "annotation", targets: []int{r.Intn(len(remoteLog))}, skip: r.Chance(0.5)})
+		if r.Chance(0.35) && len(remoteLog) > 0 {
+			t := r.Intn(len(remoteLog))
+			if r.Chance(0.6) {
+				t = len(remoteLog) - 1 // the entry just recorded
+			}
+			if remoteLog[t].kind == "annotation" {
+				continue
+			}
+			sk := r.Chance(0.5)
+			appendEntry(a, &remoteLog, c15Log{kind: "annotation", targets: []int{t}, skip: sk})
+			if r.Chance(0.5) {
+				// a second annotation on the same entry with the other flag (a note before or after the revocation)
+				appendEntry(a, &remoteLog, c15Log{kind: "annotation", targets: []int{t}, skip: !sk})
+			}
 			continue
 		}
 		ref := refsAll[r.Intn(2)]
@@ -169,7 +210,7 @@ func (d c15) Execute(c *core.Case) (res *core.Result) {
 		remoteRefs[ref] = true
 		appendEntry(a, &remoteLog, c15Log{kind: "reference", ref: ref, target: t})
 	}
-	if c.Config["remoteOnly"] > 0 {
+	if len(remoteLog) > len(shared) {
 		a.MustGit(nil, "push", "-q", "origin", "refs/heads/*:refs/heads/*", rsl.Ref+":"+rsl.Ref)
 	}
 	// B's local-only suffix
@@ -276,113 +317,118 @@ func (d c15) Execute(c *core.Case) (res *core.Result) {
 	}
 	outcomes := []string{}
 	diverged := len(remoteOnly) > 0 && len(localOnly) > 0
-	refsBefore := b.Refs()
-	rerr := bRepo.ReconcileLocalRSLWithRemote(context.Background(), "origin", false)
-	refsAfter := b.Refs()
-	after, problem := world.WalkRSLGit(b, rsl.Ref)
-	if rerr != nil {
-		outcomes = append(outcomes, "reconcile:err")
-	} else {
-		outcomes = append(outcomes, "reconcile:ok")
-	}
-	switch {
-	case !diverged:
-		// nothing to replay: behind -> fast-forward, ahead/equal -> unchanged (not the subject here)
-	case conflict:
-		if rerr == nil {
-			k := "reference"
-			if !conflictKinds["reference"] {
-				k = "propagation-only"
-			}
-			viol("conflict-not-refused", "both sides changed the same reference but reconciliation succeeded", "conflict-kind="+k)
+	reconcilePhase := func() {
+		refsBefore := b.Refs()
+		rerr := bRepo.ReconcileLocalRSLWithRemote(context.Background(), "origin", false)
+		refsAfter := b.Refs()
+		after, problem := world.WalkRSLGit(b, rsl.Ref)
+		if rerr != nil {
+			outcomes = append(outcomes, "reconcile:err")
 		} else {
-			for k, v := range refsBefore {
-				if strings.HasPrefix(k, "refs/remotes/") {
-					continue
+			outcomes = append(outcomes, "reconcile:ok")
+		}
+		switch {
+		case !diverged:
+			// nothing to replay: behind -> fast-forward, ahead/equal -> unchanged (not the subject here)
+		case conflict:
+			if rerr == nil {
+				k := "reference"
+				if !conflictKinds["reference"] {
+					k = "propagation-only"
 				}
-				if refsAfter[k] != v {
-					viol("refused-reconcile-changed-state", fmt.Sprintf("reconciliation was refused but %s changed", k))
+				viol("conflict-not-refused", "both sides changed the same reference but reconciliation succeeded", "conflict-kind="+k)
+			} else {
+				for k, v := range refsBefore {
+					if strings.HasPrefix(k, "refs/remotes/") {
+						continue
+					}
+					if refsAfter[k] != v {
+						viol("refused-reconcile-changed-state", fmt.Sprintf("reconciliation was refused but %s changed", k))
+					}
 				}
 			}
-		}
-	case rerr != nil:
-		viol("reconcile-failed", fmt.Sprintf("reconciliation of disjoint suffixes failed: %v", rerr))
-	default:
-		if problem != "" {
-			viol("chain-broken", "local log after reconcile: "+problem)
-			break
-		}
-		// the local log must extend the remote tip
-		if len(after) < len(remoteLog) {
-			viol("dropped", fmt.Sprintf("local log has %d entries, the remote log alone has %d", len(after), len(remoteLog)))
-			break
-		}
-		for i, e := range remoteLog {
-			if after[i].ID != e.id {
-				viol("reordered", "the local log does not extend the remote tip")
+		case rerr != nil:
+			viol("reconcile-failed", fmt.Sprintf("reconciliation of disjoint suffixes failed: %v", rerr))
+		default:
+			if problem != "" {
+				viol("chain-broken", "local log after reconcile: "+problem)
 				break
 			}
-		}
-		replayed := after[len(remoteLog):]
-		// each local-only entry exactly once, in order, same meaning
-		if len(replayed) != len(localOnly) {
-			lost := []string{}
-			for _, e := range localOnly {
-				lost = append(lost, e.kind)
-			}
-			got := []string{}
-			for _, e := range replayed {
-				got = append(got, e.Kind)
-			}
-			class := "dropped"
-			if len(replayed) > len(localOnly) {
-				class = "invented"
-			}
-			viol(class, fmt.Sprintf("local-only suffix was %v; after reconcile the log holds %v on top of the remote tip", lost, got))
-			break
-		}
-		newID := map[int]string{} // position in localLog -> id after reconcile
-		for i := range shared {
-			newID[i] = shared[i].id
-		}
-		for i := range localOnly {
-			newID[len(shared)+i] = replayed[i].ID
-		}
-		for i, e := range localOnly {
-			g := replayed[i]
-			if g.Kind != e.kind || (e.kind != "annotation" && (g.Ref != e.ref || g.Target != e.target)) {
-				viol("reordered", fmt.Sprintf("replayed entry %d is %s %s, expected %s %s", i, g.Kind, g.Ref, e.kind, e.ref))
+			// the local log must extend the remote tip
+			if len(after) < len(remoteLog) {
+				viol("dropped", fmt.Sprintf("local log has %d entries, the remote log alone has %d", len(after), len(remoteLog)))
 				break
 			}
-			if e.kind == "annotation" {
-				want := []string{}
-				for _, t := range e.targets {
-					want = append(want, newID[t])
-				}
-				got := append([]string{}, g.Targets...)
-				sort.Strings(want)
-				sort.Strings(got)
-				if strings.Join(want, ",") != strings.Join(got, ",") || g.Skip != e.skip {
-					stale := false
-					for _, t := range e.targets {
-						if t >= len(shared) {
-							for _, gt := range g.Targets {
-								if gt == localLog[t].id {
-									stale = true
-								}
-							}
-						}
-					}
-					ex := []string{}
-					if stale {
-						ex = append(ex, "annotation-names-stale-id")
-					}
-					viol("un-revoked", fmt.Sprintf("replayed annotation %d names %v, its re-recorded targets are %v (skip %v/%v)", i, shortAll(got), shortAll(want), g.Skip, e.skip), ex...)
+			for i, e := range remoteLog {
+				if after[i].ID != e.id {
+					viol("reordered", "the local log does not extend the remote tip")
 					break
 				}
 			}
+			replayed := after[len(remoteLog):]
+			// each local-only entry exactly once, in order, same meaning
+			if len(replayed) != len(localOnly) {
+				lost := []string{}
+				for _, e := range localOnly {
+					lost = append(lost, e.kind)
+				}
+				got := []string{}
+				for _, e := range replayed {
+					got = append(got, e.Kind)
+				}
+				class := "dropped"
+				if len(replayed) > len(localOnly) {
+					class = "invented"
+				}
+				viol(class, fmt.Sprintf("local-only suffix was %v; after reconcile the log holds %v on top of the remote tip", lost, got))
+				break
+			}
+			newID := map[int]string{} // position in localLog -> id after reconcile
+			for i := range shared {
+				newID[i] = shared[i].id
+			}
+			for i := range localOnly {
+				newID[len(shared)+i] = replayed[i].ID
+			}
+			for i, e := range localOnly {
+				g := replayed[i]
+				if g.Kind != e.kind || (e.kind != "annotation" && (g.Ref != e.ref || g.Target != e.target)) {
+					viol("reordered", fmt.Sprintf("replayed entry %d is %s %s, expected %s %s", i, g.Kind, g.Ref, e.kind, e.ref))
+					break
+				}
+				if e.kind == "annotation" {
+					want := []string{}
+					for _, t := range e.targets {
+						want = append(want, newID[t])
+					}
+					got := append([]string{}, g.Targets...)
+					sort.Strings(want)
+					sort.Strings(got)
+					if strings.Join(want, ",") != strings.Join(got, ",") || g.Skip != e.skip {
+						stale := false
+						for _, t := range e.targets {
+							if t >= len(shared) {
+								for _, gt := range g.Targets {
+									if gt == localLog[t].id {
+										stale = true
+									}
+								}
+							}
+						}
+						ex := []string{}
+						if stale {
+							ex = append(ex, "annotation-names-stale-id")
+						}
+						viol("un-revoked", fmt.Sprintf("replayed annotation %d names %v, its re-recorded targets are %v (skip %v/%v)", i, shortAll(got), shortAll(want), g.Skip, e.skip), ex...)
+						break
+					}
+				}
+			}
+			_ = skippedSet
 		}
-		_ = skippedSet
+	}
+	if !c.Flags["syncOnly"] {
+		reconcilePhase()
 	}
 	// ---- Sync ----
 	if len(res.Violations) == 0 {
